@@ -206,6 +206,8 @@ def _key_use(n: ast.Name, p: Optional[ast.AST], literal_lists: Set[str]) -> Tupl
             return True, "in-literal-list"
         if all(isinstance(o, ast.Call) and norm(o.func) == "str" for o in others):
             return True, "compare-canonical-index"
+        if all(isinstance(op, (ast.In, ast.NotIn)) for op in p.ops) and p.left is n and all(isinstance(o, ast.Attribute) and o.attr in ("_properties", "_getters", "_setters") for o in others):
+            return True, "in-property-dictionary"
         return False, "compare"
     if isinstance(p, ast.Subscript) and p.slice is n and isinstance(p.value, ast.Attribute) and p.value.attr in ("_properties", "_getters", "_setters"):
         return True, f"property-dictionary:{p.value.attr}"
@@ -277,6 +279,8 @@ def rule_prototype_values(ctx, rep, rid: str) -> None:
                 rep.ok(rid, key)
             elif isinstance(a, ast.Constant) and a.value is None:
                 rep.ok(rid, key)
+            elif isinstance(a, ast.Attribute) and a.attr in ("_object_prototype", "_array_prototype"):
+                rep.ok(rid, key, {"because": "one of the context's own prototype objects"})
             elif isinstance(a, ast.Name) and a.id in cs.func.params() and not _defs_of(cs.func, a.id):
                 # a parameter: every call of the function passes None or a proven object
                 from ..util import bind_args
@@ -1206,3 +1210,88 @@ def _parents(n):
     while p is not None:
         yield p
         p = getattr(p, "_parent", None)
+
+
+# ---- accessors run with the receiver as this -------------------------------------------------------------
+def rule_accessor_receiver(ctx, rep, rid: str) -> None:
+    """An accessor found on the prototype chain runs with the object the property was read from / written to as
+    `this`, not with the object that holds the accessor."""
+    rep.rule(rid, "every invocation of a property getter or setter passes the receiver of the property access (the object parameter of the get/set routine, never re-bound while the chain is walked) as this", floor=2)
+    vmcls = ctx.facts.vm_dispatcher()[0].cls
+    invokers = {m.name for m in vmcls.all_methods if "invoke" in m.name and ("getter" in m.name or "setter" in m.name)}
+    if not invokers:
+        raise AnalysisError("accessor invocation helpers not found")
+    n = 0
+    for f in ctx.tree.funcs:
+        if isinstance(f.node, ast.Lambda) or f.name in invokers:
+            continue
+        for c in f.own_nodes():
+            if not (isinstance(c, ast.Call) and isinstance(c.func, ast.Attribute) and c.func.attr in invokers and len(c.args) >= 2):
+                continue
+            n += 1
+            this_arg = c.args[1]
+            key = f"{f.qual}:{c.func.attr}(.., {short(this_arg, 20)})"
+            params = [p for p in f.params() if p != "self"]
+            recv = params[0] if params else None
+            rebound = [a for a in f.own_nodes() if isinstance(a, (ast.Assign, ast.AugAssign)) and any(isinstance(t, ast.Name) and t.id == recv for t in (a.targets if isinstance(a, ast.Assign) else [a.target]))]
+            if isinstance(this_arg, ast.Name) and this_arg.id == recv and not rebound:
+                rep.ok(rid, key)
+            elif isinstance(this_arg, ast.Name) and this_arg.id == recv:
+                rep.bad(rid, key, f"{f.qual} passes `{recv}` as this, but re-binds it at line {rebound[0].lineno}: by the time the accessor runs it may name another object of the chain", f"{f.module.rel}:{c.lineno}")
+            else:
+                rep.bad(rid, key, f"{f.qual} runs the accessor with `{norm(this_arg)}` as this instead of the receiver `{recv}`: an inherited getter/setter then sees the prototype that holds it (o = Object.create({{get v(){{return this.n}}}}); o.n = 7; o.v is not 7)", f"{f.module.rel}:{c.lineno}")
+    if n < 2:
+        raise AnalysisError(f"only {n} accessor invocation(s) found")
+
+
+# ---- host-to-script converters convert every member ----------------------------------------------------
+def rule_converters_convert_members(ctx, rep, rid: str) -> None:
+    """A function that turns a host list/dict into a script array/object must run every member through the
+    conversion (which maps None to null and nested containers to script containers): a member stored as it is can be
+    Python None, a list or a dict - values no script type describes."""
+    rep.rule(rid, "a function that builds a script array or object from a host list or dict stores only converted members (the result of a conversion call), never the host member itself", floor=2)
+    n = 0
+    for f in ctx.tree.funcs:
+        if isinstance(f.node, ast.Lambda) or f.module.name not in ("context", "vm", "values"):
+            continue
+        for branch in f.own_nodes():
+            if not (isinstance(branch, ast.If) and isinstance(branch.test, ast.Call) and norm(branch.test.func) == "isinstance" and len(branch.test.args) == 2 and norm(branch.test.args[1]) in ("list", "dict", "(list, tuple)", "tuple")):
+                continue
+            src = norm(branch.test.args[0])
+            makes = [x for s_ in branch.body for x in ast.walk(s_) if isinstance(x, ast.Call) and call_name(x) in ("JSArray", "JSObject")]
+            if not makes:
+                continue
+            # members stored
+            stores: List[Tuple[ast.AST, ast.AST, str]] = []  # (expr stored, node, loop variable names)
+            for s_ in branch.body:
+                for x in ast.walk(s_):
+                    if isinstance(x, ast.Assign) and any(isinstance(t, ast.Attribute) and t.attr == "_elements" for t in x.targets) and isinstance(x.value, ast.ListComp) and src in norm(x.value.generators[0].iter):
+                        lv = {y.id for y in ast.walk(x.value.generators[0].target) if isinstance(y, ast.Name)}
+                        stores.append((x.value.elt, x, lv))
+                    if isinstance(x, ast.For) and src in norm(x.iter):
+                        lv = {y.id for y in ast.walk(x.target) if isinstance(y, ast.Name)}
+                        for c in ast.walk(x):
+                            if isinstance(c, ast.Call) and isinstance(c.func, ast.Attribute) and c.func.attr == "set" and len(c.args) == 2:
+                                stores.append((c.args[1], c, lv))
+                            if isinstance(c, ast.Call) and isinstance(c.func, ast.Attribute) and c.func.attr == "append" and "_elements" in norm(c.func.value) and c.args:
+                                stores.append((c.args[0], c, lv))
+                            if isinstance(c, ast.Call) and isinstance(c.func, ast.Attribute) and c.func.attr in ("push", "set_index") and c.args:
+                                stores.append((c.args[-1], c, lv))
+            for e, node, lv in stores:
+                n += 1
+                key = f"{f.qual}:{src}:{short(e, 40)}"
+                leaves = []
+                work = [e]
+                while work:
+                    y = work.pop()
+                    if isinstance(y, ast.IfExp):
+                        work += [y.body, y.orelse]
+                    else:
+                        leaves.append(y)
+                raw = [y for y in leaves if isinstance(y, ast.Name) and y.id in lv]
+                if raw:
+                    rep.bad(rid, key, f"{f.qual} stores the host member `{raw[0].id}` of {src} as it is ({short(e, 50)}): a JSON null / Python None there becomes an element that is neither null nor undefined for the script (typeof 'undefined', !== undefined), and any other host object leaks the same way", f"{f.module.rel}:{node.lineno}")
+                else:
+                    rep.ok(rid, key)
+    if n < 2:
+        raise AnalysisError(f"only {n} member store(s) of host-to-script converters found")
